@@ -72,7 +72,7 @@ def run_verus(path, timeout=600, rlimit=None, extra=None):
             except Exception:
                 pass
         rawerr.append(l)
-    return {'cmd': ' '.join(cmd), 'exit': p.returncode, 'json': out, 'diags': diags, 'raw_stderr': rawerr, 'wall_s': wall,
+    return {'path': path, 'cmd': ' '.join(cmd), 'exit': p.returncode, 'json': out, 'diags': diags, 'raw_stderr': rawerr, 'wall_s': wall,
             'stdout': p.stdout if out is None else ''}
 
 
@@ -109,7 +109,8 @@ def failures(res, gen):
         msg = d.get('message', '')
         if msg.startswith('aborting due to'):
             continue
-        spans = d.get('spans', [])
+        unit_file = os.path.basename(res.get('path', '') or '')
+        spans = [s for s in d.get('spans', []) if not unit_file or os.path.basename(s.get('file_name', '')) == unit_file]
         prim = [s for s in spans if s.get('is_primary')]
         sec = [s for s in spans if not s.get('is_primary')]
         kind = classify(msg)
